@@ -51,7 +51,8 @@ func cmdC06Dialect(o opts) {
 			if v.Kind == "canon" && firstCanon == nil {
 				firstCanon = v.Bytes
 			}
-			em.incomplete = forged
+			badck := v.Kind == "badck" || v.Kind == "badck_extra"
+			em.incomplete = forged || badck
 			g := em.group()
 			em.put(g, v.Bytes, -1, "eof", nil, false, cfg, false, "kd_"+v.Kind)
 			em.put(g, v.Bytes, -1, "eof", []int{1}, false, cfg, false, "kd_"+v.Kind)
